@@ -215,7 +215,9 @@ def params_list(draw, defined=(), max_size=12, undefined_words=True, floaty_word
             out.append({"t": "num", "v": draw(N.num_literal())})
         elif c <= 6 and defined:
             nm = draw(st.sampled_from(list(defined)))
-            out.append({"t": "word", "v": ("-" + nm) if draw(st.integers(0, 3)) == 0 else nm})
+            # a single leading minus negates; any other sign decoration makes it a different, undefined word
+            pre = draw(st.sampled_from(("", "", "", "", "-", "-", "+", "--", "-+", "+-")))
+            out.append({"t": "word", "v": pre + nm})
         elif undefined_words and floaty_words and draw(st.sampled_from((True, False, False, False))):
             # words that Python's float() would accept are still words of this language (LABEL, not SIGNED_NUMBER)
             out.append({"t": "word", "v": draw(st.sampled_from(("nan", "inf", "-inf", "Infinity", "+inf", "NaN", "-Infinity", "infinity", "e5", "_1", "x10")))})
